@@ -9,6 +9,7 @@ Calls into the package use the callee's CONTRACT (or inline a function declared 
 loops are cut at supplied invariants; nothing is unrolled.
 """
 import ast
+import os
 import builtins
 import functools
 import inspect
@@ -150,11 +151,13 @@ class State:
         ctx = self.solver.ctx      # only the long-lived context is shared with the watchdog thread
 
         def watchdog(done=done, ctx=ctx):
-            if not done.wait(5.0):
+            if not done.wait(12.0):
                 try:
                     ctx.interrupt()
                 except Exception:
                     pass
+                if os.environ.get('PYVC_WORKER') and not done.wait(15.0):
+                    os._exit(75)        # stuck worker: give the job back (see driver.guarded_check)
         threading.Thread(target=watchdog, daemon=True).start()
         try:
             return self.solver.check()
